@@ -644,8 +644,12 @@ class BaseCarver(BaseDiscretizer):
             disable=not self.verbose,
             desc="Testing robustness    ",
         ):
+            # modalities in the feature's order (grouping sorts them by label)
+            ordered_modalities = list(dict.fromkeys(association["index_to_groupby"].values()))
+
             # computing target rate and frequency per value
             train_rates = self._printer(association["xagg"])  # pylint: disable=E1101
+            train_rates = train_rates.reindex(ordered_modalities)
 
             # viability on train sample:
             # - target rates are distinct for consecutive modalities
@@ -678,6 +682,7 @@ class BaseCarver(BaseDiscretizer):
 
                     # computing target rate and frequency per modality
                     dev_rates = self._printer(grouped_xagg_dev)  # pylint: disable=E1101
+                    dev_rates = dev_rates.reindex(ordered_modalities)
 
                     # viability on dev sample:
                     # - grouped values have the same ranks in train/test
